@@ -175,6 +175,12 @@ func (e Engine) Generate(r *core.Rand, tier core.Tier) *core.Scenario {
 		k.Replicas = append(k.Replicas, rc)
 	}
 	k.Gen.Legacy = r.Chance(1, 6)
+	// A debonding interval of zero epochs is legal: expired nodes are then removed from the
+	// registry at the very epoch transition at which they expire, while they are still part of the
+	// commit info of the next blocks (own PRNG: the rest of the scenario is unchanged).
+	if core.NewRand(core.Derive(core.Hash64([]byte(k.Gen.Salt)), "zero-debonding", 0)).Chance(1, 5) {
+		k.Gen.Debonding = 0
+	}
 	wl := workloads[e.Prop]
 	if wl != nil && wl.Tune != nil {
 		wl.Tune(r, &k)
